@@ -37,9 +37,21 @@ def run(ctx: Ctx):
     ctx.guard(r)
   from mlmverif.props import c04
   from mlmverif.props._queue import model as qmodel
+  from mlmverif.props import c05
+  ctx.include('R-C13-7', '"when the stream fails or is stopped early, all helper'
+              ' threads finish": a failure recorded by ANY producer wakes all'
+              ' waiters on both conditions (R-C05-1), and no stop/failure path'
+              ' waits or notifies under a second lock in an inverted order'
+              ' (R-C04-4)', _fail_shared, qmodel(ctx), min_instances=8)
   ctx.include('R-C13-5', '"collects every generator\'s return value": the'
               ' return values are recorded before end-of-stream can be'
               ' observed (R-C04-6)', c04.r6, qmodel(ctx), min_instances=2)
+
+
+def _fail_shared(sub, m):
+  from mlmverif.props import c04, c05
+  sub.guard(c05.r1, m)
+  sub.guard(c04.r4, m)
 
 
 def r1(ctx: Ctx):
